@@ -1,4 +1,5 @@
 import StoneVerif.Lemmas.RtRoundTrip
+import StoneVerif.Model.Rt.Encode
 /-!
 Property theorems for C04: decoding the JSON that serialising a valid value produces yields an equal value,
 and serialising that result yields the same JSON again — strict and lenient, through the helper and the
@@ -46,8 +47,9 @@ theorem jsonCompatObjDecode_wire (E : Ext) (env : Env) (hwf : envWF env = true) 
   ⟨canon env t v, jsonCompatObjDecode_wire_canon hwf hrt hE strict t v g, pyEq_canon hwf hrt hE t v g⟩
 
 /-- **C04, complete statement.** One decoded value `v'` is returned by both entry points in both modes, it is
-equal to the original, it passes the validator, and serialising it gives the same JSON again (so a second
-round trip changes nothing). `v'` is the canonical form `canon env t v`. -/
+equal to the original, it passes the validator, it is again valid and in stored-normal form (so C05's
+`encode_eq_wire` applies to it), and serialising it gives the same JSON again (so a second round trip changes
+nothing). `v'` is the canonical form `canon env t v`. -/
 theorem round_trip (E : Ext) (env : Env) (hwf : envWF env = true) (hrt : envRT env = true) (hE : ExtLaws E env)
     (t : PTy) (v : PyVal)
     (htwf : tyWF env t = true) (hv : validB E env t v = true) (hn : normalB env t v = true)
@@ -56,11 +58,31 @@ theorem round_trip (E : Ext) (env : Env) (hwf : envWF env = true) (hrt : envRT e
       (∀ strict, jsonCompatObjDecode E env [] strict t (wire E env t v) = .ok v') ∧
       pyEq E env v v' = true ∧
       validate E env t v' = .ok v' ∧
+      validB E env t v' = true ∧ normalB env t v' = true ∧
       wire E env t v' = wire E env t v :=
   have g : Good E env t v := ⟨htwf, hv, hn, hvw, hamb⟩
   ⟨canon env t v, fun strict => decode_wire_canon hwf hrt hE strict t v g,
     fun strict => jsonCompatObjDecode_wire_canon hwf hrt hE strict t v g,
-    pyEq_canon hwf hrt hE t v g, validate_canon hwf hrt t v g, wire_canon hwf hrt t v g⟩
+    pyEq_canon hwf hrt hE t v g, validate_canon hwf hrt t v g,
+    (canon_valid hwf hrt t v g).1, (canon_valid hwf hrt t v g).2, wire_canon hwf hrt t v g⟩
+
+/-- **C04 in the words of the property**, given the encoder theorem of C05 for the type at hand
+(`henc` is `C05.encode_eq_wire E env hwf hchain t · false htwf`): encoding a valid value succeeds with some
+JSON `j`; decoding `j` (either entry point, either mode) yields a value equal to the original; and encoding
+that result yields `j` again. -/
+theorem encode_decode_encode (E : Ext) (env : Env) (hwf : envWF env = true) (hrt : envRT env = true)
+    (hE : ExtLaws E env) (t : PTy) (v : PyVal)
+    (htwf : tyWF env t = true) (hv : validB E env t v = true) (hn : normalB env t v = true)
+    (hvw : valWF E env t v = true) (hamb : ambiguousEmpty env t v = false)
+    (henc : ∀ w, validB E env t w = true → normalB env t w = true →
+      encode E env [] false false t w = .ok (wire E env t w)) :
+    ∃ j v', encode E env [] false false t v = .ok j ∧
+      (∀ strict, decode E env [] strict t j = .ok v') ∧
+      (∀ strict, jsonCompatObjDecode E env [] strict t j = .ok v') ∧
+      pyEq E env v v' = true ∧
+      encode E env [] false false t v' = .ok j := by
+  obtain ⟨v', h1, h2, h3, _, h5, h6, h7⟩ := round_trip E env hwf hrt hE t v htwf hv hn hvw hamb
+  exact ⟨wire E env t v, v', henc v hv hn, h1, h2, h3, by rw [henc v' h5 h6, h7]⟩
 
 /-- Stability on its own: whatever a decoder returns for the wire form serialises to the same JSON. -/
 theorem wire_stable (E : Ext) (env : Env) (hwf : envWF env = true) (hrt : envRT env = true) (hE : ExtLaws E env)
@@ -147,10 +169,18 @@ example : ∀ strict, (match decode E0 env0 [] strict tUs (wire E0 env0 tUs vUs)
     | .ok v', .ok v'' => pyEq E0 env0 vUs v' && pyEq E0 env0 vUs v'' && !pyEq E0 env0 vUs (.list [])
     | _, _ => false) = true := by decide +kernel
 
+/-- the code-following encoder feeding the decoder on the same value (what C05 ∘ C04 says) -/
+example : ∀ strict, (match encode E0 env0 [] false false tUs vUs with
+    | .ok j => (match decode E0 env0 [] strict tUs j with
+      | .ok v' => pyEq E0 env0 vUs v'
+      | .error _ => false)
+    | .error _ => false) = true := by decide +kernel
+
 /-- `round_trip` instantiated -/
 example : ∃ v', (∀ strict, decode E0 env0 [] strict tUs (wire E0 env0 tUs vUs) = .ok v') ∧
     (∀ strict, jsonCompatObjDecode E0 env0 [] strict tUs (wire E0 env0 tUs vUs) = .ok v') ∧
-    pyEq E0 env0 vUs v' = true ∧ validate E0 env0 tUs v' = .ok v' ∧ wire E0 env0 tUs v' = wire E0 env0 tUs vUs :=
+    pyEq E0 env0 vUs v' = true ∧ validate E0 env0 tUs v' = .ok v' ∧
+    validB E0 env0 tUs v' = true ∧ normalB env0 tUs v' = true ∧ wire E0 env0 tUs v' = wire E0 env0 tUs vUs :=
   round_trip E0 env0 (by decide +kernel) (by decide +kernel) E0_laws tUs vUs
     vUs_good.1 vUs_good.2.1 vUs_good.2.2.1 vUs_good.2.2.2.1 vUs_good.2.2.2.2
 
